@@ -44,7 +44,7 @@ CHECKS = {
     'C08': "Proved (all built globs x all texts): the partition equation at the level of the documented language (C08_partition_preserves_the_language: the texts of the "
            "glob are the invariant prefix followed by the texts of the postfix; a tree wildcard after the prefix gives up its separator; the prefix may be any run of "
            "tokens with invariant text; C08_partition_without_prefix for globs without prefix or beginning with a rooted tree wildcard) and idempotence "
-           "(C08_partition_is_idempotent: partitioned again, the postfix yields an empty prefix and itself, outside the known class rooted_repetition); the capture spans of the postfix lie in the displayed suffix on character boundaries (C08_postfix_capture_spans_are_relative_to_the_suffix); for every glob that builds and has no repetition the postfix is never rooted (C08_postfix_is_never_rooted, through the rule-checker theorem of C06 over expansions) and idempotence holds without side condition. "
+           "(C08_partition_is_idempotent: partitioned again, the postfix yields an empty prefix and itself, outside the known class rooted_repetition); the capture spans of the postfix lie in the displayed suffix on character boundaries (C08_postfix_capture_spans_are_relative_to_the_suffix); for every glob that builds and has no repetition the postfix is never rooted (C08_postfix_is_never_rooted, through the rule-checker theorem of C06 over expansions) and idempotence holds without side condition; the same with repetitions written out at least once whose bodies begin and end with a leaf, when the starting chain of the glob holds no repetition (C08_postfix_is_never_rooted_with_required_repetitions, C08_partition_is_idempotent_with_required_repetitions). "
            "Proved: partitioning a built glob is total up to checked overflow (C08_partition_is_total_up_to_overflow: the top-level tokens tile the expression, so the "
            "popped bytes end where a token begins and an unrooted tree wildcard skips one ASCII character; the postfix always re-annotates); the display-suffix "
            "arithmetic (dropping the popped bytes leaves the suffix on a character boundary). Tie: every observable of partition() vs the model. "
